@@ -153,7 +153,10 @@ func (m *Model) node(id int, r *ModelRun) (action string, errID string) {
 	}
 	if s.Kind == KBatch {
 		if sc.FirstOK != 0 {
-			r.Keys = append(r.Keys, key("item", 1), key("item", 2))
+			r.Keys = append(r.Keys, key("item", 1))
+			if !(id%4 == 2 && sc.FirstOK > 1) { // a stop-on-error batch whose first item fails does not execute the second
+				r.Keys = append(r.Keys, key("item", 2))
+			}
 		}
 		r.Keys = append(r.Keys, key("post", 0))
 		m.mid(id, v, "post")
